@@ -45,7 +45,12 @@
                              {0} is "purge when the revert steps back across a boundary" read from
                              the wrong side; {} never
      DropReopenedWindow      onReorg deletes the persisted filter of the window it re-opens
-     SnapshotConsumedOnLoad  the initialisation deletes the snapshot it has read *)
+     SnapshotConsumedOnLoad  the initialisation deletes the snapshot it has read
+     ClearRevertedColumn     onReorg clears the reverted block's column (also in a window it re-opens)
+   The four together are a "mechanism" record; every transition function takes the mechanism as its
+   first argument (StoreM, RevertM, ...; StoreF etc. are the instances for the configured one), so
+   that RevertWinMBT.tla can run alternative mechanisms next to the configured one on the same
+   calls and tell which behaviours distinguish them. *)
 EXTENDS Integers, Sequences, FiniteSets, TLC
 
 CONSTANTS W,            \* blocks per window (real: 8192)
@@ -57,7 +62,8 @@ CONSTANTS W,            \* blocks per window (real: 8192)
           AnyRange,     \* TRUE: queries over every sub-range that touches the modelled blocks; FALSE: full range
           PurgeAt,
           DropReopenedWindow,
-          SnapshotConsumedOnLoad
+          SnapshotConsumedOnLoad,
+          ClearRevertedColumn
 
 VARIABLES chain,      \* disk: modelled blocks; block number Base + i - 1 is chain[i]
           pers,       \* disk: window index -> set of <<block, atom>>
@@ -149,15 +155,17 @@ InitFromDisk(ch, p, s) ==
 
 (* ensureInit: the first call that touches the filter initialises it from the disk; the
    initialisation may write (a fill that completes a window; the consumed snapshot) *)
-Touch(N) ==
+Mech == [purge |-> PurgeAt, drop |-> DropReopenedWindow, consume |-> SnapshotConsumedOnLoad, clear |-> ClearRevertedColumn]
+
+TouchM(m, N) ==
   IF N.run.ok THEN N
   ELSE LET x == InitFromDisk(N.chain, N.pers, N.snap) IN
        [N EXCEPT !.run = Hot(x.r), !.pers = x.p,
-                 !.snap = IF SnapshotConsumedOnLoad THEN NoSnap ELSE @]
+                 !.snap = IF m.consume THEN NoSnap ELSE @]
 
 (* Blockchain.Store *)
-StoreF(N, blk) ==
-  LET T == Touch(N)
+StoreM(m, N, blk) ==
+  LET T == TouchM(m, N)
       n == HeightOf(T.chain) + 1
       r == T.run IN
   IF n < r.from \/ n > r.from + W - 1 THEN [N |-> T, ok |-> FALSE]
@@ -165,30 +173,31 @@ StoreF(N, blk) ==
        [N |-> [T EXCEPT !.chain = Append(@, blk), !.run = Hot(x.r), !.pers = x.p], ok |-> TRUE]
 
 (* Blockchain.RevertHead: onReorg works from the filter's own `next` *)
-RevertF(N) ==
-  LET T == Touch(N)
+RevertM(m, N) ==
+  LET T == TouchM(m, N)
       r == T.run
       p == T.pers
       cur == r.next - 1
       h == HeightOf(T.chain)
-      purged == IF (h % W) \in PurgeAt THEN EmptyF ELSE T.cache
+      purged == IF (h % W) \in m.purge THEN EmptyF ELSE T.cache
       shorter == SubSeq(T.chain, 1, Len(T.chain) - 1) IN
   IF r.from >= 1 /\ cur = r.from - 1
   THEN LET wp == cur \div W IN
        IF wp \notin DOMAIN p THEN [N |-> T, ok |-> FALSE]
        ELSE [N |-> [T EXCEPT !.chain = shorter,
-                             !.run = Hot([from |-> wp * W, next |-> cur, bits |-> ClearCol(p[wp], cur)]),
-                             !.pers = IF DropReopenedWindow THEN Del(p, wp) ELSE p,
+                             !.run = Hot([from |-> wp * W, next |-> cur,
+                                          bits |-> IF m.clear THEN ClearCol(p[wp], cur) ELSE p[wp]]),
+                             !.pers = IF m.drop THEN Del(p, wp) ELSE p,
                              !.cache = purged],
              ok |-> TRUE]
   ELSE IF cur < r.from \/ cur > r.from + W - 1 THEN [N |-> T, ok |-> FALSE]
-  ELSE [N |-> [T EXCEPT !.chain = shorter, !.run = Hot([r EXCEPT !.next = cur, !.bits = ClearCol(@, cur)]),
+  ELSE [N |-> [T EXCEPT !.chain = shorter, !.run = Hot([r EXCEPT !.next = cur, !.bits = IF m.clear THEN ClearCol(@, cur) ELSE @]),
                         !.cache = purged],
         ok |-> TRUE]
 
 (* a new process on the same database; graceful = WriteRunningEventFilter first *)
-RestartF(N, g) ==
-  LET T == IF g THEN Touch(N) ELSE N IN
+RestartM(m, N, g) ==
+  LET T == IF g THEN TouchM(m, N) ELSE N IN
   [T EXCEPT !.snap = IF g THEN [ok |-> TRUE, from |-> T.run.from, next |-> T.run.next, bits |-> T.run.bits] ELSE @,
             !.run = Lazy, !.cache = EmptyF]
 
@@ -211,10 +220,10 @@ ScanFrom(T, f, b, hi) ==
 
 (* Blockchain.EventFilter + SetRangeEnd... + Events to exhaustion: every window of the range is
    loaded in turn; a window found nowhere is an error.  Paging is C09's business. *)
-QueryF(N, f, from, to) ==
+QueryM(m, N, f, from, to) ==
   LET hi == Min2(to, HeightOf(N.chain))
       touched == from <= hi
-      T == IF touched THEN Touch(N) ELSE N
+      T == IF touched THEN TouchM(m, N) ELSE N
       wins == IF touched THEN (from \div W)..(hi \div W) ELSE {}
       bad == {w \in wins : SrcOf(T, w) = Missing}
       loaded == IF bad = {} THEN wins ELSE {w \in wins : \A x \in bad : w < x}
@@ -223,6 +232,18 @@ QueryF(N, f, from, to) ==
   [N |-> [T EXCEPT !.cache = [w \in (DOMAIN T.cache) \cup fresh |-> IF w \in DOMAIN T.cache THEN T.cache[w] ELSE T.pers[w]]],
    ok |-> bad = {},
    ev |-> IF bad = {} /\ touched THEN ScanFrom(T, f, lo, hi) ELSE <<>>]
+
+(* every filter of a menu over the whole chain, one query after the other *)
+SweepM(m, N, menu) ==
+  LET T == QueryM(m, N, CHOOSE f \in menu : TRUE, 0, HeightOf(N.chain)).N IN
+  [N |-> T, evs |-> {[f |-> f, ev |-> QueryM(m, T, f, 0, HeightOf(N.chain)).ev] : f \in menu}]
+
+(* the configured mechanism *)
+Touch(N) == TouchM(Mech, N)
+StoreF(N, blk) == StoreM(Mech, N, blk)
+RevertF(N) == RevertM(Mech, N)
+RestartF(N, g) == RestartM(Mech, N, g)
+QueryF(N, f, from, to) == QueryM(Mech, N, f, from, to)
 
 --------------------------------------------------------------------------
 Height == HeightOf(chain)
@@ -261,9 +282,7 @@ Query(f, from, to) ==
 
 (* every filter of the menu over the whole chain: what the replay does when it sweeps a node *)
 Sweep ==
-  /\ LET T == QueryF(Node, CHOOSE f \in FilterMenu : TRUE, 0, Height).N IN
-     /\ Set(T)
-     /\ res' = [kind |-> "ok", evs |-> {[f |-> f, ev |-> QueryF(T, f, 0, Height).ev] : f \in FilterMenu}]
+  /\ LET x == SweepM(Mech, Node, FilterMenu) IN Set(x.N) /\ res' = [kind |-> "ok", evs |-> x.evs]
   /\ act' = [name |-> "Sweep"]
   /\ UNCHANGED gstops
 
